@@ -5,9 +5,17 @@ The torch module handed to tangermeme is an injective exact-integer ENCODING of 
 inputs (marker of the output number, the one-hot row, every extra argument row), so each
 entry of a wrapper's output, decoded, IS the input that was evaluated for that entry.  The
 decoded entries are the outcome given to Coq, where the user function is instantiated with
-the same identity encoding (Spec.hE); the theorems hold for every example-wise function h.
+the same identity encoding (Spec.hEd); the theorems hold for every example-wise function h.
+
+An input may carry 'pre': a list of earlier calls executed first IN THE SAME PROCESS with the
+same model / func / kwargs-dict / tensor objects (objects are shared whenever their content is
+equal), so that state kept between calls or keyed on an incomplete key shows up in the last
+call, which is the one that is checked.
 """
-import itertools
+import contextlib
+import copy
+import io
+import json
 
 import numpy
 import torch
@@ -20,26 +28,41 @@ IMPORTS = ['Base.OneHot', 'C01.Model', 'C08.Model', 'C08.Spec']
 CASE_TYPE = 'case'
 CHECK = 'check_case'
 SHARD = 60
-RULE = ('seeded random calls of marginalize / ablate / space / marginalize_annotations / '
-        'ablate_annotations / apply_product / apply_pairwise with encoding models: batch 1-4, '
-        'length 4-14, tensor output or tuples of 1-3 outputs (per-example output shapes (D,) and (2,D)), '
-        '0-2 extra args with per-example-distinct rows, func in {predict, a tuple-returning custom '
-        'func, deep_lift_shap(raw multipliers of a quadratic net), saturation_mutagenesis(raw)}, '
-        'shuffle / dinucleotide_shuffle with n = 1..5 (replayed with the same seed), 1..6 annotations '
-        '(!= number of outputs in most cases), spacing grids of 1-4 rows for 1-3 motifs, product '
-        'argument sets of sizes 1..4 and arity 0..3 with batch_size in {1,2,3,4,5,7,32} (mostly not '
-        'dividing the product), plus a small rejected stream (mis-sized args, spans off the edge); '
-        'non-trivial = accepted call with at least two distinct indices along every output axis '
-        'whose size is not fixed to 1 by the API')
+RULE = ('calls of marginalize / ablate / space / marginalize_annotations / ablate_annotations / '
+        'apply_product / apply_pairwise with encoding models.  Random stream: batch 1-4, length 4-14, '
+        'alphabets 2-5, tensor output or tuples of 1-3 outputs (per-example output shapes (D,) and (2,D)), '
+        '0-2 extra args with per-example-distinct rows (tuple/list, float32/float64/int64, row shapes '
+        '(w,), (w,1), (1,w)), X as float32/float64/int8/int64, motifs as str (any alphabet) or tensor '
+        '(int8/float32, shared or per example), start as int / numpy.int64 / None, func in {predict, a '
+        'tuple-returning custom func, deep_lift_shap(raw multipliers of a quadratic net), '
+        'saturation_mutagenesis(raw); under apply_*: also marginalize and a nested-tuple func}, func '
+        'kwargs routed through **kwargs or additional_func_kwargs, batch_size given or defaulted, '
+        'shuffle / dinucleotide_shuffle / a user shuffle_fn with n = 1..5 or the default 20, random_state '
+        'as int / numpy.int64 / RandomState object (replayed), negative `end`, 1..6 annotations as int64 / '
+        'int32 tensor, numpy array or list, spacing grids of 1-4 rows for 1-3 motifs as list / numpy / '
+        'int32 / int64 tensor, verbose on/off, product argument sets of sizes 1..4 and arity 0..3 with '
+        'multi-dimensional rows and batch_size in {1,2,3,4,5,7,32,default}.  Boundary stream: spans at '
+        'position 0 / ending at L / full length / one column, duplicate annotations and equal coordinates '
+        'on different examples, default start with spacing rows of different totals, batch_size equal to '
+        'B, B*n, the product size and one more/less.  Sequence stream: 2-3 calls in one process on the '
+        'same objects with ONE thing changed (X, args, seed, n, start, motif, grid, annotation example '
+        'index / coordinates, argument sets, batch_size, number of outputs).  Rejected stream: mis-sized '
+        'args, spans off the edge, empty argument set.  Every case also checks that the caller\'s '
+        'tensors / arrays / lists are unmodified and how the result is packaged.  Non-trivial = accepted '
+        'call with at least two distinct indices along every output axis whose size is not fixed to 1 '
+        'by the API')
 TRUSTED = ['encoding torch modules (harness/c08.py: Enc, Quad) and the decoding of their outputs',
            'ablate: the expected shuffle j of example i is obtained by calling the same shuffle '
-           'function with the same random_state from the harness']
+           'function with the same random_state (same type, fresh object) from the harness']
 ASSUMPTIONS = ['the user function acts example by example in batch order (Section variable h; '
-               'exercised by every case through predict / deep_lift_shap / saturation_mutagenesis)',
+               'exercised by every case through predict / deep_lift_shap / saturation_mutagenesis / marginalize)',
                'what "motif substituted at p" / "motifs at spacing row s" denote is C01\'s: the spec '
                'constructs the substituted input position by position; for space it uses the C01 '
-               'model of multisubstitute']
+               'model of multisubstitute',
+               '"caller data unmodified" and the packaging (tensor / list / list of lists) are observed '
+               'by the harness and required by check_case next to spec_ok']
 LETTERS = 'ACGTXY'
+DT = {'f32': torch.float32, 'f64': torch.float64, 'i8': torch.int8, 'i64': torch.int64}
 
 
 # ----------------------------------------------------------------------------------------
@@ -55,7 +78,10 @@ class Enc(torch.nn.Module):
 
     def forward(self, X, *args):
         X = X.float()
-        row = torch.cat([X.flatten(1)] + [a.flatten(1).float() for a in args], dim=1)
+        parts = [X.flatten(1)]
+        for a in args:      # the row, then a code of the row's shape (so reshaped rows are noticed)
+            parts += [a.flatten(1).float(), torch.full((X.shape[0], 1), float(shape_code(a)))]
+        row = torch.cat(parts, dim=1)
         outs = []
         for k in range(1 if self.nk is None else self.nk):
             y = torch.cat([torch.full((X.shape[0], 1), float(k)), row], dim=1)
@@ -65,18 +91,49 @@ class Enc(torch.nn.Module):
         return outs[0] if self.nk is None else tuple(outs)
 
 
+def shape_code(a):
+    return 100 * a.ndim + 10 * (a.shape[1] if a.ndim > 1 else 0) + (a.shape[2] if a.ndim > 2 else 0)
+
+
+def expected_code(w, sh):
+    return {'flat': 200 + 10 * w, 'col': 300 + 10 * w + 1, 'row': 300 + 10 + w}[sh]
+
+
 class Quad(torch.nn.Module):
     """f(x, rows) = (1 + sum_i rows_i * 8^i) * sum(x*x): d f / d x = 2 c x identifies x and rows"""
 
     def forward(self, X, *args):
-        c = torch.ones(X.shape[0])
+        c = torch.ones(X.shape[0], dtype=X.dtype)
         for i, a in enumerate(args):
-            c = c + a.float().flatten(1)[:, 0] * (8 ** i)
+            c = c + a.to(X.dtype).flatten(1)[:, 0] * (8 ** i)
         return ((X * X).sum(dim=(1, 2)) * c).unsqueeze(1)
 
 
 def zero_refs(X, n=1, random_state=None, **kw):
-    return torch.zeros(X.shape[0], n, *X.shape[1:])
+    return torch.zeros(X.shape[0], n, *X.shape[1:], dtype=X.dtype)
+
+
+def custom_shuffle(X, start=0, end=-1, n=1, random_state=None):
+    """a user-supplied shuffle_fn: 'shuffle' j rotates the region by (seed + j + 1) columns"""
+    L = X.shape[-1]
+    if end < 0:
+        end = L + 1 + end
+    if end <= start or end > L or start < 0:
+        raise ValueError('bad region')
+    if isinstance(random_state, numpy.random.RandomState):
+        r = int(random_state.randint(0, 1000))
+    else:
+        r = int(random_state)
+    outs = []
+    for j in range(n):
+        Xj = X.clone()
+        Xj[:, :, start:end] = torch.roll(X[:, :, start:end], shifts=(r + j + 1) % (end - start), dims=-1)
+        outs.append(Xj)
+    return torch.stack(outs, dim=1)
+
+
+def func_key(inp):
+    return json.dumps([inp.get('func', 'predict'), inp.get('fk')])
 
 
 def make_func(inp):
@@ -118,6 +175,9 @@ def make_func(inp):
     if f == 'ism':
         from tangermeme.ism import saturation_mutagenesis
         return saturation_mutagenesis, {'raw_outputs': True}
+    if f == 'marginalize':
+        from tangermeme.marginalize import marginalize
+        return marginalize, {}
     raise KeyError(f)
 
 
@@ -148,14 +208,14 @@ def column(A, k):
     return c
 
 
-def to_tensor(A, seqs):
+def to_tensor(A, seqs, dt='f32'):
     B = len(seqs)
     L = len(seqs[0]) if B else 0
     X = torch.zeros(B, A, L, dtype=torch.float32)
     for b, s in enumerate(seqs):
         for p, k in enumerate(s):
             X[b, k, p] = 1
-    return X
+    return X.to(DT[dt])
 
 
 def ohe_list(Y):
@@ -163,24 +223,32 @@ def ohe_list(Y):
     return Y.detach().transpose(-1, -2).round().to(torch.int64).tolist()
 
 
-def arg_tensors(args):
-    return None if not args else tuple(torch.tensor(a, dtype=torch.float32) for a in args)
+def arg_tensor(a, dt='f32', sh='flat'):
+    t = torch.tensor(a, dtype=DT[dt])
+    if t.ndim == 2 and sh == 'col':
+        t = t.unsqueeze(2)
+    elif t.ndim == 2 and sh == 'row':
+        t = t.unsqueeze(1)
+    return t
 
 
 BAD = (99, 99, [], [])
 
 
 def decode_row(v, A, L, widths):
-    """1-D tensor [marker, x.flatten(), rows...] -> (marker, dna [L][A], rows) or None"""
-    D = 1 + A * L + sum(widths)
+    """1-D tensor [marker, x.flatten(), (row, shape code)...] -> (marker, dna [L][A], rows) or None;
+    widths: list of (w, row-shape form)"""
+    D = 1 + A * L + sum(w + 1 for w, _ in widths)
     if v.ndim != 1 or v.shape[0] != D or not torch.equal(v, v.round()):
         return None
     v = v.to(torch.int64).tolist()
     x = [[v[1 + a * L + l] for a in range(A)] for l in range(L)]
     rows, o = [], 1 + A * L
-    for w in widths:
+    for w, sh in widths:
         rows.append(v[o:o + w])
-        o += w
+        if v[o + w] != expected_code(w, sh):
+            return None
+        o += w + 1
     return v[0], x, rows
 
 
@@ -231,6 +299,8 @@ def decode_leaf(y, A, L, widths, mode, pos):
         t, k = 0, m
     elif mode == 't':
         t, k = m, 0
+    elif mode == 'pos':          # t = position of the result in func's return value
+        t, k = pos, m
     else:
         t, k = divmod(m, 100)
     if not (0 <= t < 99 and 0 <= k < 99):
@@ -247,6 +317,14 @@ def to_nd(y, rank, dec):
     return ('node', [to_nd(y[i], rank - 1, dec) for i in range(y.shape[0])])
 
 
+def pack_tag(y):
+    if isinstance(y, torch.Tensor):
+        return 0
+    if isinstance(y, (list, tuple)) and all(isinstance(t, torch.Tensor) for t in y):
+        return 1
+    return 2
+
+
 def as_list(y):
     return [y] if isinstance(y, torch.Tensor) else list(y)
 
@@ -256,23 +334,44 @@ def as_list(y):
 
 def shuffle_fn(name):
     from tangermeme import ersatz
+    if name == 'custom':
+        return custom_shuffle
     return ersatz.shuffle if name == 'shuffle' else ersatz.dinucleotide_shuffle
 
 
-def replay_shuffle(inp, X):
-    """what shuffle_fn returns for this call: [B][n][L][A], or None when it raises"""
-    try:
-        S = shuffle_fn(inp['shuf'])(X, start=inp['start'], end=inp['end'], n=inp['n'],
-                                    random_state=inp['seed'])
-        return ohe_list(S)
-    except Exception:
-        return None
+def seed_obj(inp):
+    f = inp.get('seedf', 'int')
+    if f == 'np':
+        return numpy.int64(inp['seed'])
+    if f == 'rs':
+        return numpy.random.RandomState(inp['seed'])
+    return inp['seed']
 
 
-def motif_arg(m):
+def replay_shuffles(inp):
+    """what shuffle_fn returns for each call ablate makes: a list (one per annotation for ablann,
+    else one) of [B][n][L][A] or None when it raises.  A RandomState object is shared by the
+    successive calls of ablate_annotations, exactly as in the implementation."""
+    A = inp['A']
+    X = to_tensor(A, inp['X'], inp.get('xdt', 'f32'))
+    n = 20 if inp.get('ndef') else inp['n']
+    rs = seed_obj(inp)
+    fn = shuffle_fn(inp['shuf'])
+    spans = ([(slice(a[0], a[0] + 1), a[1], a[2]) for a in inp['anns']] if inp['kind'] == 'ablann'
+             else [(slice(None), inp['start'], inp['end'])])
+    out = []
+    for sl, s, e in spans:
+        try:
+            out.append(ohe_list(fn(X[sl], start=s, end=e, n=n, random_state=rs)))
+        except Exception:
+            out.append(None)
+    return out
+
+
+def motif_arg(m, alphabet):
     if m['form'] == 'str':
-        return ''.join(LETTERS[k] for k in m['seqs'][0])
-    return to_tensor(m['A'], m['seqs'])
+        return ''.join(alphabet[k] for k in m['seqs'][0])
+    return to_tensor(m['A'], m['seqs'], m.get('dt', 'f32'))
 
 
 def leaf_mode(inp, j=None):
@@ -284,11 +383,65 @@ def leaf_mode(inp, j=None):
     if inp['kind'] in ('prod', 'pair'):
         if f == 'nested':
             return 'tk'
+        if f == 'marginalize':
+            return 'pos'
         return 'k' if inp.get('nk') is None and f == 'predict' else 't'
     return 'k'
 
 
-def run_impl(inp):
+def num(v, form):
+    if v is None:
+        return None
+    return numpy.int64(v) if form == 'np' else int(v)
+
+
+class Ctx:
+    """objects shared by the calls of one sequence: equal content -> the same object"""
+
+    def __init__(self):
+        self.objs = {}
+        self.snap = []
+
+    def get(self, role, content, build, track=True):
+        key = role + json.dumps(content, sort_keys=True, default=str)
+        if key not in self.objs:
+            o = build()
+            self.objs[key] = o
+            if track:
+                self.snap.append((o, copy.deepcopy(o)))
+        return self.objs[key]
+
+    def unchanged(self):
+        def same(a, b):
+            if isinstance(a, torch.Tensor):
+                return isinstance(b, torch.Tensor) and a.dtype == b.dtype and a.shape == b.shape \
+                    and torch.equal(a, b)
+            if isinstance(a, numpy.ndarray):
+                return a.dtype == b.dtype and a.shape == b.shape and numpy.array_equal(a, b)
+            if isinstance(a, (list, tuple)):
+                return type(a) == type(b) and len(a) == len(b) and all(same(x, y) for x, y in zip(a, b))
+            return a == b
+        return all(same(a, b) for a, b in self.snap)
+
+
+def ann_obj(anns, form):
+    if form == 'list':
+        return [list(a) for a in anns]
+    if form == 'numpy':
+        return numpy.array(anns, dtype=numpy.int64).reshape(-1, 3)
+    return torch.tensor(anns, dtype=torch.int32 if form == 'tensor32' else torch.int64).reshape(-1, 3)
+
+
+def grid_obj(grid, form):
+    if form == 'numpy':
+        return numpy.array(grid, dtype=numpy.int64).reshape(len(grid), -1)
+    if form in ('t32', 't64'):
+        return torch.tensor(grid, dtype=torch.int32 if form == 't32' else torch.int64).reshape(len(grid), -1)
+    return [list(r) for r in grid]
+
+
+def call_impl(inp, ctx):
+    """one call of the wrapper named by inp['kind']; returns (raw result, decoding info)"""
     from tangermeme.marginalize import marginalize, marginalize_annotations
     from tangermeme.ablate import ablate, ablate_annotations
     from tangermeme.space import space
@@ -296,72 +449,136 @@ def run_impl(inp):
     kind = inp['kind']
     A = inp['A']
     alphabet = list(LETTERS[:A])
-    X = to_tensor(A, inp['X'])
-    L = X.shape[-1]
-    args = arg_tensors(inp.get('args'))
-    widths = [len(a[0]) for a in inp.get('args', [])]
-    model = make_model(inp)
-    func, fkw = make_func(inp)
-    fkw = dict(fkw)
-    kw = dict(batch_size=inp.get('bs', 32), device='cpu')
-    try:
-        if kind in ('prod', 'pair'):
-            pargs = [torch.tensor(a, dtype=torch.float32) for a in inp['pargs']]
-            widths = [len(a[0]) if a else 0 for a in inp['pargs']]
-            f = apply_product if kind == 'prod' else apply_pairwise
-            y = f(func, model, X, args=pargs, batch_size=inp['bs'], device='cpu')
-            rank = 1 + len(pargs) if kind == 'prod' else 2
-            if isinstance(y, torch.Tensor):
-                ys = [[y]]
-            elif all(isinstance(t, torch.Tensor) for t in y):
-                ys = [[t] for t in y]
-            else:
-                ys = [list(t) for t in y]
-            dec = lambda v: decode_leaf(v, A, L, widths, leaf_mode(inp), None)
-            return {'ok': True, 'Y': [[to_nd(t, rank, dec) for t in r] for r in ys]}
+    xdt = inp.get('xdt', 'f32')
+    X = ctx.get('X', [A, inp['X'], xdt], lambda: to_tensor(A, inp['X'], xdt))
+    model = ctx.get('model', [inp.get('func') == 'dls', inp.get('nk')], lambda: make_model(inp), track=False)
+    func, fkw0 = ctx.get('func', func_key(inp), lambda: make_func(inp), track=False)
+    sf = inp.get('startf', 'int')
+    if kind in ('prod', 'pair'):
+        sh = inp.get('pargsh', 'flat')
+        adt = inp.get('argdt', 'f32')
+        pargs = ctx.get('pargs', [inp['pargs'], sh, adt, inp.get('argc')],
+                        lambda: [arg_tensor(a, adt, sh) if a else torch.tensor(a, dtype=DT[adt]) for a in inp['pargs']])
+        if inp.get('argc') == 'tuple':
+            pargs = tuple(pargs)
+        f = apply_product if kind == 'prod' else apply_pairwise
+        kw = {}
+        if not inp.get('bsdef'):
+            kw['batch_size'] = inp['bs']
+        fk = dict(fkw0)
+        if inp.get('func') == 'marginalize':
+            fk['motif'] = ctx.get('motif', inp['M'], lambda: motif_arg(inp['M'], alphabet))
+            fk['start'] = num(inp['start'], sf)
+            fk['alphabet'] = alphabet
+        if inp.get('route') == 'afk':
+            d = ctx.get('afk', [kind, sorted(fk)], lambda: {}, track=False)
+            d.update(fk)
+            kw['additional_func_kwargs'] = d
+        else:
+            kw.update(fk)
+        if inp.get('verbose'):
+            kw['verbose'] = True
+        return f(func, model, X, args=pargs, device='cpu', **kw)
+    adt, ash = inp.get('argdt', 'f32'), inp.get('argsh', 'flat')
+    args = None
+    if inp.get('args'):
+        args = ctx.get('args', [inp['args'], adt, ash], lambda: [arg_tensor(a, adt, ash) for a in inp['args']])
+        if inp.get('argc', 'tuple') == 'tuple':
+            args = tuple(args)
+    kw = {'device': 'cpu'}
+    if not inp.get('bsdef'):
+        kw['batch_size'] = inp.get('bs', 32)
+    fk = dict(fkw0)
+    if inp.get('route') == 'kw':
+        kw.update(fk)
+    elif fk or inp.get('route') == 'afk':
+        d = ctx.get('afk', [kind, sorted(fk)], lambda: {}, track=False)
+        d.update(fk)
+        kw['additional_func_kwargs'] = d
+    if kind == 'marg':
         if args is not None:
             kw['args'] = args
-        if kind == 'marg':
-            if inp.get('func') in ('dls',):
-                kw['random_state'] = 0
-            yb, ya = marginalize(model, X, motif_arg(inp['M']), start=inp['start'],
-                                 alphabet=alphabet, func=func, additional_func_kwargs=fkw, **kw)
-            ranks = (1, 1)
-        elif kind == 'abl':
-            yb, ya = ablate(model, X, inp['start'], inp['end'], n=inp['n'],
-                            shuffle_fn=shuffle_fn(inp['shuf']), random_state=inp['seed'],
-                            func=func, additional_func_kwargs=fkw, **kw)
-            ranks = (1, 2)
-        elif kind == 'space':
-            if inp.get('func') in ('dls',):
-                kw['random_state'] = 0
-            yb, ya = space(model, X, [motif_arg(m) for m in inp['Ms']], inp['grid'],
-                           start=inp['start'], alphabet=alphabet, func=func,
-                           additional_func_kwargs=fkw, **kw)
-            ranks = (2, 2)
-        elif kind == 'margann':
-            X0 = to_tensor(A, inp['X0'])
-            L = X0.shape[-1]
-            ann = torch.tensor(inp['anns'], dtype=torch.int64).reshape(-1, 3)
-            yb, ya = marginalize_annotations(model, X, X0, ann, start=inp['start'], func=func,
-                                             additional_func_kwargs=fkw, **kw)
-            ranks = (2, 2)
-        elif kind == 'ablann':
-            ann = torch.tensor(inp['anns'], dtype=torch.int64).reshape(-1, 3)
-            yb, ya = ablate_annotations(model, X, ann, n=inp['n'], shuffle_fn=shuffle_fn(inp['shuf']),
-                                        random_state=inp['seed'], func=func,
-                                        additional_func_kwargs=fkw, **kw)
-            ranks = (2, 3)
+        motif = ctx.get('motif', inp['M'], lambda: motif_arg(inp['M'], alphabet))
+        return marginalize(model, X, motif, start=num(inp['start'], sf), alphabet=alphabet, func=func, **kw)
+    if kind == 'abl':
+        if args is not None:
+            kw['args'] = args
+        if not inp.get('ndef'):
+            kw['n'] = inp['n']
+        return ablate(model, X, num(inp['start'], sf), num(inp['end'], sf), shuffle_fn=shuffle_fn(inp['shuf']),
+                      random_state=seed_obj(inp), func=func, **kw)
+    if kind == 'space':
+        if args is not None:
+            kw['args'] = args
+        if inp.get('verbose'):
+            kw['verbose'] = True
+        gf = inp.get('gridf', 'list')
+        grid = ctx.get('grid', [inp['grid'], gf], lambda: grid_obj(inp['grid'], gf))
+        motifs = ctx.get('motifs', inp['Ms'], lambda: [motif_arg(m, alphabet) for m in inp['Ms']])
+        return space(model, X, motifs, grid, start=num(inp['start'], sf), alphabet=alphabet, func=func, **kw)
+    af = inp.get('annf', 'tensor64')
+    ann = ctx.get('ann', [inp['anns'], af], lambda: ann_obj(inp['anns'], af))
+    if kind == 'margann':
+        if args is not None:
+            kw['args'] = args
+        X0 = ctx.get('X0', [A, inp['X0'], xdt], lambda: to_tensor(A, inp['X0'], xdt))
+        return marginalize_annotations(model, X, X0, ann, start=num(inp['start'], sf), func=func, **kw)
+    if kind == 'ablann':
+        if args is not None:
+            kw['args'] = args
+        if not inp.get('ndef'):
+            kw['n'] = inp['n']
+        return ablate_annotations(model, X, ann, shuffle_fn=shuffle_fn(inp['shuf']),
+                                  random_state=seed_obj(inp), func=func, **kw)
+    raise KeyError(kind)
+
+
+RANKS = {'marg': (1, 1), 'abl': (1, 2), 'space': (2, 2), 'margann': (2, 2), 'ablann': (2, 3)}
+
+
+def decode_result(inp, y):
+    kind = inp['kind']
+    A = inp['A']
+    if kind in ('prod', 'pair'):
+        L = len(inp['X'][0])
+        widths = [(len(a[0]) if a else 0, inp.get('pargsh', 'flat')) for a in inp['pargs']]
+        rank = 1 + len(inp['pargs']) if kind == 'prod' else 2
+        tag = pack_tag(y)
+        if tag == 0:
+            ys = [[y]]
+        elif tag == 1:
+            ys = [[t] for t in y]
         else:
-            raise KeyError(kind)
-        out = []
-        for y, rank in zip((yb, ya), ranks):
-            ys = as_list(y)
-            out.append([to_nd(t, rank, (lambda v, j=j: decode_leaf(v, A, L, widths, leaf_mode(inp, j), j)))
-                        for j, t in enumerate(ys)])
-        return {'ok': True, 'Y': out}
-    except Exception as e:
-        return {'ok': False, 'Y': None, 'err': '%s: %s' % (type(e).__name__, str(e)[:200])}
+            ys = [list(t) for t in y]
+        Y = [[to_nd(t, rank, (lambda v, a=a: decode_leaf(v, A, L, widths, leaf_mode(inp), a))) for t in r]
+             for a, r in enumerate(ys)]
+        return Y, tag
+    L = len(inp['X0'][0]) if kind == 'margann' else len(inp['X'][0])
+    widths = [(len(a[0]), inp.get('argsh', 'flat')) for a in inp.get('args', [])]
+    yb, ya = y
+    out = []
+    for yy, rank in zip((yb, ya), RANKS[kind]):
+        out.append([to_nd(t, rank, (lambda v, j=j: decode_leaf(v, A, L, widths, leaf_mode(inp, j), j)))
+                    for j, t in enumerate(as_list(yy))])
+    return out, 10 * min(pack_tag(yb), 1) + min(pack_tag(ya), 1)
+
+
+def run_impl(inp):
+    ctx = Ctx()
+    with contextlib.redirect_stderr(io.StringIO()):     # tqdm bars of verbose=True
+        for pre in inp.get('pre', []):
+            try:
+                call_impl(pre, ctx)
+            except Exception:
+                pass
+        try:
+            y = call_impl(inp, ctx)
+            Y, tag = decode_result(inp, y)
+            out = {'ok': True, 'Y': Y, 'tag': tag}
+        except Exception as e:
+            out = {'ok': False, 'Y': None, 'tag': 0, 'err': '%s: %s' % (type(e).__name__, str(e)[:200])}
+    out['unchanged'] = ctx.unchanged()
+    return out
 
 
 # ----------------------------------------------------------------------------------------
@@ -408,9 +625,21 @@ def sh_lit(inp):
     nk = inp.get('nk')
     if f == 'nested':
         return '(OLL %s %s)' % (C.nat(inp['fk']), C.nat(nk))
+    if f == 'marginalize':
+        return '(OL 2%nat)' if nk is None else '(OLL 2%%nat %s)' % C.nat(nk)
     if f == 'tuplefn':
         return '(OL %s)' % C.nat(inp['fk'])
     return 'OT' if nk is None else '(OL %s)' % C.nat(nk)
+
+
+def edit_lit(inp):
+    """apply_* with func = marginalize: result t = 1 is the model on x with the motif at p"""
+    if inp['kind'] not in ('prod', 'pair') or inp.get('func') != 'marginalize':
+        return 'None'
+    mo = inp['M']['seqs'][0]
+    L = len(inp['X'][0])
+    p = inp['start'] if inp['start'] is not None else L // 2 - len(mo) // 2
+    return '(Some (%s, %s))' % (C.nat(p), dna_lit([column(inp['M']['A'], k) for k in mo]))
 
 
 def coq_case(inp, out):
@@ -423,8 +652,9 @@ def coq_case(inp, out):
         call = '(CMarg %s %s %s %s %s)' % (nk, tensor_lit(A, inp['X']), tensor_lit(m['A'], m['seqs']),
                                            C.opt(inp['start']), args)
     elif kind == 'abl':
-        S = replay_shuffle(inp, to_tensor(A, inp['X']))
-        call = '(CAbl %s %s %s %s %s)' % (nk, batch_of(A, inp['X']), C.nat(inp['n']), shuf_lit(S), args)
+        S = replay_shuffles(inp)[0]
+        n = 20 if inp.get('ndef') else inp['n']
+        call = '(CAbl %s %s %s %s %s)' % (nk, batch_of(A, inp['X']), C.nat(n), shuf_lit(S), args)
     elif kind == 'space':
         call = '(CSpace %s %s %s %s %s %s)' % (
             nk, tensor_lit(A, inp['X']), C.lst([tensor_lit(m['A'], m['seqs']) for m in inp['Ms']]),
@@ -434,21 +664,21 @@ def coq_case(inp, out):
         call = '(CMargAnn %s %s %s %s %s %s)' % (nk, tensor_lit(A, inp['X']), tensor_lit(A, inp['X0']),
                                                  anns, C.opt(inp['start']), args)
     elif kind == 'ablann':
-        X = to_tensor(A, inp['X'])
-        Ss = []
-        for idx, s, e in inp['anns']:
-            Ss.append(shuf_lit(replay_shuffle(dict(inp, start=s, end=e), X[idx:idx + 1])))
+        Ss = [shuf_lit(S) for S in replay_shuffles(inp)]
+        n = 20 if inp.get('ndef') else inp['n']
         call = '(CAblAnn %s %s %s %s %s %s)' % (nk, batch_of(A, inp['X']),
-                                                C.natlist([a[0] for a in inp['anns']]), C.nat(inp['n']),
+                                                C.natlist([a[0] for a in inp['anns']]), C.nat(n),
                                                 C.lst(Ss), args)
     else:
         call = '(%s %s %s %s %s)' % ('CProd' if kind == 'prod' else 'CPair', sh_lit(inp),
-                                     batch_of(A, inp['X']), args_lit(inp['pargs']), C.nat(inp['bs']))
+                                     batch_of(A, inp['X']), args_lit(inp['pargs']),
+                                     C.nat(32 if inp.get('bsdef') else inp['bs']))
     if out['ok']:
         o = '(Ok %s)' % C.lst([C.lst([nd_lit(t) for t in r]) for r in out['Y']])
     else:
         o = 'Err'
-    return '(%s, %s)' % (call, o)
+    return '(%s, %s, %s, %s, %s)' % (call, o, edit_lit(inp), C.nat(out.get('tag', 0)),
+                                     C.boolean(out.get('unchanged', True)))
 
 
 # ----------------------------------------------------------------------------------------
@@ -459,24 +689,25 @@ def nontrivial(inp, out):
         return False
     kind = inp['kind']
     B = len(inp['X'])
+    n = 20 if inp.get('ndef') else inp.get('n', 0)
     if kind == 'marg':
         return B >= 2
     if kind == 'abl':
-        return B >= 2 and inp['n'] >= 2
+        return B >= 2 and n >= 2
     if kind == 'space':
         return B >= 2 and len(inp['grid']) >= 2
     if kind == 'margann':
         return len(inp['anns']) >= 2 and len(inp['X0']) >= 2
     if kind == 'ablann':
-        return len(inp['anns']) >= 2 and inp['n'] >= 2
+        return len(inp['anns']) >= 2 and n >= 2
     if kind == 'prod':
         return B >= 2 and all(len(a) >= 2 for a in inp['pargs'])
     return B >= 2 and len(inp['pargs'][0]) >= 2
 
 
 def hist_key(inp, out):
-    return '%s/%s/%s/%s' % (inp['kind'], inp.get('func', 'predict'),
-                            'T' if eff_nk(inp) is None else eff_nk(inp), 'ok' if out['ok'] else 'raise')
+    return '%s/%s/%s/%s/%s' % (inp['kind'], inp.get('stream', 'random'), inp.get('func', 'predict'),
+                               'T' if eff_nk(inp) is None else eff_nk(inp), 'ok' if out['ok'] else 'raise')
 
 
 def tags(inp, out):
@@ -525,10 +756,38 @@ def rand_model(rng, inp, allow=('predict', 'predict', 'predict', 'tuplefn', 'dls
     return f
 
 
-def rand_motif(rng, A, m, B, allow_str=True):
+def rand_motif(rng, A, m, B):
     Bm = rng.choice([1, 1, B])
-    form = 'str' if (allow_str and Bm == 1 and rng.random() < 0.4) else 'tensor'
-    return {'form': form, 'A': A, 'seqs': [rand_seq(rng, A, m) for _ in range(Bm)]}
+    form = 'str' if (Bm == 1 and rng.random() < 0.4) else 'tensor'
+    return {'form': form, 'A': A, 'seqs': [rand_seq(rng, A, m) for _ in range(Bm)],
+            'dt': rng.choice(['f32', 'f32', 'i8'])}
+
+
+def forms(rng, inp):
+    """input forms / types / routes the API accepts, drawn independently of the values"""
+    f = inp.get('func', 'predict')
+    kind = inp['kind']
+    inp['xdt'] = rng.choice(['f32', 'f32', 'f64']) if f == 'dls' else rng.choice(['f32', 'f32', 'f64', 'i8', 'i64'])
+    inp['startf'] = rng.choice(['int', 'int', 'np'])
+    inp['argc'] = rng.choice(['tuple', 'list'])
+    inp['argdt'] = rng.choice(['f32', 'f32', 'f64', 'i64']) if f != 'dls' else rng.choice(['f32', 'f64'])
+    inp['route'] = rng.choice(['afk', 'kw', 'none'])
+    if rng.random() < 0.15:
+        inp['bsdef'] = True
+    if kind in ('prod', 'pair'):
+        inp['pargsh'] = rng.choice(['flat', 'flat', 'col', 'row'])
+        inp['verbose'] = rng.random() < 0.1
+        return inp
+    inp['argsh'] = rng.choice(['flat', 'flat', 'col', 'row'])
+    if kind in ('abl', 'ablann'):
+        inp['seedf'] = rng.choice(['int', 'int', 'np']) if (f == 'dls' or inp.get('shuf') == 'dinuc') \
+            else rng.choice(['int', 'int', 'np', 'rs'])
+    if kind in ('margann', 'ablann'):
+        inp['annf'] = rng.choice(['tensor64', 'tensor64', 'tensor32', 'numpy', 'list'])
+    if kind == 'space':
+        inp['gridf'] = rng.choice(['list', 'list', 'numpy', 't32', 't64'])
+        inp['verbose'] = rng.random() < 0.1
+    return inp
 
 
 def gen_one(rng, kind):
@@ -537,33 +796,48 @@ def gen_one(rng, kind):
     L = rng.randint(4, 14)
     inp = {'kind': kind, 'A': A, 'bs': rng.choice([1, 2, 3, 5, 32])}
     if kind in ('prod', 'pair'):
-        f = rng.choice(['predict', 'predict', 'tuplefn', 'nested'])
+        f = rng.choice(['predict', 'predict', 'tuplefn', 'nested', 'marginalize', 'dls'])
         inp['func'] = f
         if f == 'predict':
             inp['nk'] = rng.choice([None, 1, 2, 3])
         elif f == 'tuplefn':
             inp['nk'], inp['fk'] = None, rng.randint(1, 3)
-        else:
+        elif f == 'nested':
             inp['nk'], inp['fk'] = rng.randint(1, 3), rng.randint(1, 2)
+        elif f == 'marginalize':
+            inp['nk'] = rng.choice([None, None, 1, 2, 3])
+        else:
+            inp['nk'] = None
         L = rng.randint(2, 6)
         inp['X'] = [rand_seq(rng, A, L) for _ in range(B)]
         if kind == 'prod':
-            m = rng.choice([0, 1, 1, 2, 2, 3])
+            m = rng.choice([0, 1, 1, 2, 2, 3]) if f != 'dls' else rng.choice([0, 1, 2])
             sizes = [rng.randint(1, 4) for _ in range(m)]
         else:
-            m = rng.choice([1, 1, 2, 3])
+            m = rng.choice([1, 1, 2, 3]) if f != 'dls' else rng.choice([1, 2])
             sizes = [rng.randint(1, 4)] * m
         pargs = []
         for j, n in enumerate(sizes):
+            if f == 'dls':
+                perm = rng.sample(range(8), n)
+                pargs.append([[perm[i]] for i in range(n)])
+                continue
             w = rng.choice([1, 2])
             base = rng.randrange(40)
             pargs.append([[base + 7 * j + 3 * i + 50 * c for c in range(w)] for i in range(n)])
         inp['pargs'] = pargs
-        total = B * (numpy.prod(sizes, dtype=int) if kind == 'prod' else (sizes[0] if sizes else 1))
+        total = B * (int(numpy.prod(sizes, dtype=int)) if kind == 'prod' else (sizes[0] if sizes else 1))
         cands = [b for b in (1, 2, 3, 4, 5, 7, 32) if total % b] or [1, 2, 3]
-        inp['bs'] = int(rng.choice(cands + cands + [1, 2, 3, 4, 5, 7, 32]))
+        inp['bs'] = int(rng.choice(cands + cands + [1, 2, 3, 4, 5, 7, 32, total, total + 1, max(1, total - 1)]))
+        if f == 'marginalize':
+            mlen = rng.randint(1, min(3, L))
+            inp['M'] = {'form': rng.choice(['str', 'tensor']), 'A': A, 'seqs': [rand_seq(rng, A, mlen)],
+                        'dt': rng.choice(['f32', 'i8'])}
+            inp['start'] = None if rng.random() < 0.3 else rng.randint(0, L - mlen)
+        forms(rng, inp)
+        if f == 'dls':
+            inp['pargsh'] = 'flat'
         return inp
-    dls = None
     if kind == 'margann':
         f = rand_model(rng, inp, ('predict', 'predict', 'predict', 'tuplefn', 'dls'))
         BX = rng.randint(1, 3)
@@ -580,7 +854,7 @@ def gen_one(rng, kind):
         mx = max(e - s for _, s, e in anns)
         inp['start'] = None if rng.random() < 0.3 else rng.randint(0, L - mx)
         inp['args'] = rand_args(rng, B, small=(f == 'dls'))
-        return inp
+        return forms(rng, inp)
     f = rand_model(rng, inp)
     if f == 'ism':
         L = rng.randint(3, 6)
@@ -594,16 +868,16 @@ def gen_one(rng, kind):
             anns.append([rng.randrange(B), s, e])
         inp['anns'] = anns
         inp['n'] = rng.randint(1, 5)
-        inp['shuf'] = 'shuffle'
+        inp['shuf'] = rng.choice(['shuffle', 'shuffle', 'custom'])
         inp['seed'] = rng.randint(0, 10 ** 6)
         inp['args'] = rand_args(rng, 1, small=(f == 'dls'))
-        return inp
+        return forms(rng, inp)
     inp['X'] = [rand_seq(rng, A, L) for _ in range(B)]
     inp['args'] = rand_args(rng, B, small=(f == 'dls'))
     if kind == 'marg':
         m = rng.randint(1, min(4, L))
-        inp['M'] = rand_motif(rng, A, m, B, allow_str=(A == 4))
-        inp['start'] = None if rng.random() < 0.25 else rng.randint(0, L - m)
+        inp['M'] = rand_motif(rng, A, m, B)
+        inp['start'] = None if rng.random() < 0.25 else rng.choice([0, L - m, rng.randint(0, L - m)])
     elif kind == 'abl':
         dinuc = A == 4 and rng.random() < 0.25 and f != 'ism'
         if dinuc:
@@ -613,12 +887,21 @@ def gen_one(rng, kind):
         else:
             s = rng.randrange(L)
             inp['start'], inp['end'] = s, rng.randint(s + 1, L)
-        inp['shuf'] = 'dinuc' if dinuc else 'shuffle'
+            r = rng.random()
+            if r < 0.15:
+                inp['end'] = L
+            elif r < 0.3 and s < L - 2:
+                inp['end'] = rng.choice([-1, -2])
+            if rng.random() < 0.15:
+                inp['start'] = 0
+        inp['shuf'] = 'dinuc' if dinuc else rng.choice(['shuffle', 'shuffle', 'custom'])
         inp['n'] = rng.randint(1, 5)
+        if rng.random() < 0.04 and B <= 2 and f in ('predict', 'tuplefn'):
+            inp['ndef'] = True
         inp['seed'] = rng.randint(0, 10 ** 6)
     elif kind == 'space':
         nm = rng.choice([1, 2, 2, 3])
-        Ms = [rand_motif(rng, A, rng.randint(1, 2), B, allow_str=(A == 4)) for _ in range(nm)]
+        Ms = [rand_motif(rng, A, rng.randint(1, 2), B) for _ in range(nm)]
         tot = sum(len(m['seqs'][0]) for m in Ms)
         room = max(0, L - tot)
         rows = rng.randint(1, 4)
@@ -632,8 +915,212 @@ def gen_one(rng, kind):
             grid.append(r)
         inp['Ms'], inp['grid'] = Ms, grid
         mx = max([sum(r) for r in grid]) if nm > 1 else 0
-        inp['start'] = None if rng.random() < 0.25 else rng.randint(0, max(0, L - tot - mx))
-    return inp
+        inp['start'] = None if rng.random() < 0.35 else rng.randint(0, max(0, L - tot - mx))
+    return forms(rng, inp)
+
+
+def boundary(rng):
+    """values at the edges of every integer parameter, and the combinations the code special-cases"""
+    A = 4
+    X = [[0, 1, 2, 3, 1, 0], [3, 2, 1, 0, 2, 2], [1, 3, 0, 2, 3, 1]]
+    L = 6
+    args3 = [[[5, 6], [7, 8], [9, 1]]]
+    out = []
+
+    def add(d):
+        d.setdefault('A', A)
+        d.setdefault('bs', 32)
+        d['stream'] = 'boundary'
+        out.append(d)
+    for nk, func, fk in ((None, 'predict', None), (2, 'predict', None), (3, 'predict', None), (None, 'tuplefn', 2)):
+        base = {'func': func, 'nk': nk}
+        if fk:
+            base['fk'] = fk
+        # annotations: first column, last column, full length, one column, exact duplicates,
+        # equal coordinates on different examples
+        spans = [[0, 0, 1], [1, L - 1, L], [2, 0, L], [1, 2, 3], [1, 2, 3], [0, 2, 3], [2, 2, 3],
+                 [0, 1, L], [2, 0, L - 1]]
+        for annf in ('tensor64', 'list'):
+            k = rng.randint(2, len(spans))
+            sub = rng.sample(spans, k)
+            add(dict(base, kind='ablann', X=X, anns=sub, n=rng.randint(1, 3), shuf='shuffle',
+                     seed=rng.randint(0, 99), args=rng.choice([[], [[[4, 2]]]]), annf=annf))
+            add(dict(base, kind='ablann', X=X, anns=[[0, 3, L], [1, 3, L], [2, 3, L]], n=2, shuf='shuffle',
+                     seed=rng.randint(0, 99), args=[], annf=annf, seedf=rng.choice(['int', 'np', 'rs'])))
+            X0 = [[2, 2, 0, 0, 1, 3, 3], [0, 3, 1, 2, 2, 0, 1]]
+            sub = rng.sample(spans, k)
+            mx = max(e - s for _, s, e in sub)
+            add(dict(base, kind='margann', X=X, X0=X0, anns=sub, start=rng.choice([None, 0, 7 - mx]),
+                     args=rng.choice([[], [[[4], [9]]]]), annf=annf))
+            add(dict(base, kind='margann', X=X, X0=X0, anns=[[0, 2, 4], [1, 2, 4], [2, 2, 4], [1, 2, 4]],
+                     start=rng.choice([None, 0, 5]), args=[], annf=annf))
+        # marginalize: start 0 / L-m / default for odd and even lengths
+        for Lx in (6, 7):
+            Xs = [x[:Lx] if Lx <= 6 else x + [rng.randrange(4)] for x in X]
+            for m in (1, 2, 3, Lx):
+                mo = {'form': rng.choice(['str', 'tensor']), 'A': A, 'seqs': [rand_seq(rng, A, m)]}
+                add(dict(base, kind='marg', X=Xs, M=mo, start=rng.choice([None, None, 0, Lx - m]), args=args3,
+                         bs=rng.choice([1, 3, 32])))
+        # ablate: whole sequence, first / last column, negative end, n = 1, batch_size = B*n
+        for s, e in ((0, L), (0, 1), (L - 1, L), (0, -1), (1, -2), (2, L)):
+            n = rng.choice([1, 2, 4])
+            add(dict(base, kind='abl', X=X, start=s, end=e, n=n, shuf=rng.choice(['shuffle', 'custom']),
+                     seed=rng.randint(0, 99), args=args3, bs=rng.choice([3 * n, 3, 1, 3 * n - 1]),
+                     seedf=rng.choice(['int', 'np', 'rs'])))
+        # space: default start with rows of different totals (each row is centred on its own)
+        Xl = [x + x for x in X]
+        Ms = [{'form': 'str', 'A': A, 'seqs': [[0, 1]]}, {'form': 'tensor', 'A': A, 'seqs': [[2]]}]
+        for grid in ([[0], [2]], [[1], [4], [0]], [[3], [0], [5], [2]], [[0]], [[7]]):
+            add(dict(base, kind='space', X=Xl, Ms=Ms, grid=grid, start=None, args=args3,
+                     gridf=rng.choice(['list', 'numpy', 't32', 't64']), bs=rng.choice([1, 3, 32])))
+        add(dict(base, kind='space', X=Xl, Ms=Ms + [{'form': 'str', 'A': A, 'seqs': [[3, 3]]}],
+                 grid=[[0, 0], [2, 1], [0, 4]], start=None, args=[]))
+        add(dict(base, kind='space', X=Xl, Ms=Ms[:1], grid=[[], []], start=rng.choice([None, 0, 10]), args=args3))
+    # products: batch_size around the product size, sizes 1, arity 0..3
+    for f, nk, fk in (('predict', None, None), ('predict', 2, None), ('nested', 2, 2), ('marginalize', None, None),
+                      ('marginalize', 2, None), ('tuplefn', None, 3)):
+        base = {'func': f, 'nk': nk, 'X': [x[:4] for x in X]}
+        if fk:
+            base['fk'] = fk
+        if f == 'marginalize':
+            base['M'] = {'form': 'str', 'A': A, 'seqs': [[3, 3]]}
+            base['start'] = rng.choice([None, 0, 2])
+        for sizes in ([], [1], [4], [2, 3], [3, 1, 2], [4, 4]):
+            ws = [rng.choice([1, 2]) for _ in sizes]
+            pargs = [[[10 * j + i, 50 + i][:ws[j]] for i in range(n)] for j, n in enumerate(sizes)]
+            total = 3 * int(numpy.prod(sizes, dtype=int))
+            for bs in {1, total, total + 1, max(1, total - 1), 5}:
+                add(dict(base, kind='prod', pargs=pargs, bs=bs))
+            add(dict(base, kind='prod', pargs=pargs, bs=32, bsdef=True))
+        for n in (1, 3, 4):
+            pargs = [[[i] for i in range(n)], [[20 + i, 30 + i] for i in range(n)]]
+            for bs in {1, 3 * n, 3 * n + 1, 5}:
+                add(dict(base, kind='pair', pargs=pargs, bs=bs, pargsh=rng.choice(['flat', 'col', 'row'])))
+    return out
+
+
+def vary(rng, inp):
+    """a copy of inp with ONE thing changed (or None)"""
+    kind = inp['kind']
+    A = inp['A']
+    v = copy.deepcopy(inp)
+    v.pop('pre', None)
+    opts = ['X', 'bs']
+    if inp.get('args'):
+        opts.append('args')
+    if kind in ('abl', 'ablann'):
+        opts += ['seed', 'n']
+    if kind in ('marg', 'space', 'margann') or inp.get('func') == 'marginalize':
+        opts.append('start')
+    if kind == 'marg' or inp.get('func') == 'marginalize':
+        opts.append('motif')
+    if kind == 'space':
+        opts += ['grid', 'motifs']
+    if kind in ('margann', 'ablann'):
+        opts += ['idx', 'coords']
+    if kind in ('prod', 'pair'):
+        opts += ['pargs', 'psize']
+    if inp.get('func', 'predict') == 'predict' and kind not in ('prod', 'pair'):
+        opts.append('nk')
+    what = rng.choice(opts)
+    L = len(inp['X0'][0]) if kind == 'margann' else len(inp['X'][0])
+    if what == 'X':
+        key = 'X0' if kind == 'margann' and rng.random() < 0.5 else 'X'
+        Lk = len(inp[key][0])
+        mk = diverse_seq if inp.get('shuf') == 'dinuc' else rand_seq
+        v[key] = [mk(rng, A, Lk) for _ in inp[key]]
+    elif what == 'bs':
+        v['bs'] = rng.choice([b for b in (1, 2, 3, 4, 5, 7, 32) if b != inp.get('bs')])
+        v.pop('bsdef', None)
+    elif what == 'args':
+        v['args'] = [[[x + 1 for x in r] for r in a] for a in inp['args']]
+        if inp.get('func') == 'dls':
+            v['args'] = [[[(x + 1) % 8 for x in r] for r in a] for a in inp['args']]
+    elif what == 'seed':
+        v['seed'] = inp['seed'] + rng.randint(1, 5)
+    elif what == 'n':
+        v['n'] = inp['n'] % 5 + 1
+        v.pop('ndef', None)
+    elif what == 'start':
+        cur = inp['start']
+        if kind == 'marg' or inp.get('func') == 'marginalize':
+            room = L - len(inp['M']['seqs'][0])
+        elif kind == 'margann':
+            room = L - max(e - s for _, s, e in inp['anns'])
+        else:
+            tot = sum(len(m['seqs'][0]) for m in inp['Ms'])
+            room = L - tot - max([sum(r) for r in inp['grid']] + [0])
+        c = [s for s in [None] + list(range(0, max(0, room) + 1)) if s != cur]
+        if not c:
+            return None
+        v['start'] = rng.choice(c)
+    elif what == 'motif':
+        m = inp['M']
+        v['M'] = dict(m, seqs=[[(k + 1) % m['A'] for k in s] for s in m['seqs']])
+    elif what == 'motifs':
+        v['Ms'] = [dict(m, seqs=[[(k + 1) % m['A'] for k in s] for s in m['seqs']]) for m in inp['Ms']]
+    elif what == 'grid':
+        if not inp['grid'] or not inp['grid'][0]:
+            return None
+        v['grid'] = [list(r) for r in reversed(inp['grid'])] if len(inp['grid']) > 1 and rng.random() < 0.5 \
+            else [[max(0, g - 1) for g in r] for r in inp['grid']]
+        if v['grid'] == inp['grid']:
+            return None
+    elif what == 'idx':
+        nB = len(inp['X'])
+        if nB < 2:
+            return None
+        v['anns'] = [[(a[0] + 1) % nB, a[1], a[2]] for a in inp['anns']]
+    elif what == 'coords':
+        LX = len(inp['X'][0])
+        new = []
+        for idx, s, e in inp['anns']:
+            if s > 0:
+                new.append([idx, s - 1, e - 1])
+            elif e < LX and (kind == 'ablann' or e - s + 1 <= L):
+                new.append([idx, s, e + 1] if kind == 'ablann' else [idx, s + 1, e + 1])
+            else:
+                new.append([idx, s, e])
+        if new == inp['anns']:
+            return None
+        v['anns'] = new
+        if kind == 'margann' and v['start'] is not None:
+            v['start'] = min(v['start'], L - max(e - s for _, s, e in new))
+    elif what == 'pargs':
+        if not inp['pargs']:
+            return None
+        if inp.get('func') == 'dls':
+            v['pargs'] = [[[(x + 1) % 8 for x in r] for r in a] for a in inp['pargs']]
+        else:
+            v['pargs'] = [[[x + 1 for x in r] for r in a] for a in inp['pargs']]
+    elif what == 'psize':
+        if not inp['pargs'] or len(inp['pargs'][0]) < 2:
+            return None
+        v['pargs'] = [a[:-1] for a in inp['pargs']] if kind == 'pair' else [inp['pargs'][0][:-1]] + inp['pargs'][1:]
+    elif what == 'nk':
+        v['nk'] = rng.choice([k for k in (None, 1, 2, 3) if k != inp.get('nk')])
+    return v
+
+
+def sequence(rng, kind):
+    """2-3 calls in one process on shared objects, ONE thing changed between consecutive calls"""
+    for _ in range(20):
+        base = gen_one(rng, kind)
+        if base.get('seedf') == 'rs':
+            base['seedf'] = 'int'
+        v = vary(rng, base)
+        if v is None or v == base:
+            continue
+        r = rng.random()
+        if r < 0.45:
+            final, pre = base, [v]
+        elif r < 0.8:
+            final, pre = v, [base]
+        else:
+            final, pre = base, [base, v]
+        final = dict(final, pre=pre, stream='sequence')
+        return final
+    return gen_one(rng, kind)
 
 
 def reject_one(rng):
@@ -641,8 +1128,12 @@ def reject_one(rng):
     kind = rng.choice(['marg', 'abl', 'space', 'prod0'])
     if kind == 'prod0':
         inp = gen_one(rng, 'prod')
+        while inp.get('func') not in ('predict', 'tuplefn', 'nested'):
+            inp = gen_one(rng, 'prod')
         inp['bs'] = rng.choice([1, 2])
+        inp.pop('bsdef', None)
         inp['pargs'] = inp['pargs'] + [[]]
+        inp['stream'] = 'reject'
         return inp
     inp = gen_one(rng, kind)
     while inp.get('func') not in ('predict', 'tuplefn'):
@@ -657,6 +1148,7 @@ def reject_one(rng):
         inp['start'] = rng.choice([L - m + 1, L, -1, L + 2])
     else:
         inp['start'] = L
+    inp['stream'] = 'reject'
     return inp
 
 
@@ -665,10 +1157,19 @@ KINDS = ['marg', 'marg', 'abl', 'abl', 'space', 'space', 'margann', 'margann', '
 
 
 def generate(tier, rng):
-    n = 1100 if tier != 'thorough' else 9000
+    quick = tier != 'thorough'
+    bd = boundary(rng)
+    if quick:
+        prods = [b for b in bd if b['kind'] in ('prod', 'pair')]
+        bd = [b for b in bd if b['kind'] not in ('prod', 'pair')] + rng.sample(prods, 150)
+    for inp in bd:
+        yield inp
+    n = 620 if quick else 6500
     for i in range(n):
         if i % 25 == 24:
             yield reject_one(rng)
+        elif i % 4 == 3:
+            yield sequence(rng, KINDS[(i // 4) % len(KINDS)])
         else:
             yield gen_one(rng, KINDS[i % len(KINDS)])
 
@@ -676,6 +1177,12 @@ def generate(tier, rng):
 def shrink(inp):
     kind = inp['kind']
     B = len(inp['X'])
+    if inp.get('pre'):
+        yield {k: v for k, v in inp.items() if k != 'pre'}
+        if len(inp['pre']) > 1:
+            for i in range(len(inp['pre'])):
+                yield dict(inp, pre=inp['pre'][:i] + inp['pre'][i + 1:])
+        return
     if kind in ('marg', 'abl', 'space') and B > 1:
         for i in range(B):
             c = dict(inp)
@@ -687,7 +1194,7 @@ def shrink(inp):
                 c['Ms'] = [dict(m, seqs=(m['seqs'][:i] + m['seqs'][i + 1:]) if len(m['seqs']) == B else m['seqs'])
                            for m in inp['Ms']]
             yield c
-    if kind in ('abl', 'ablann') and inp['n'] > 1:
+    if kind in ('abl', 'ablann') and not inp.get('ndef') and inp['n'] > 1:
         yield dict(inp, n=inp['n'] - 1)
     if kind in ('margann', 'ablann') and len(inp['anns']) > 1:
         for i in range(len(inp['anns'])):
@@ -713,3 +1220,9 @@ def shrink(inp):
             yield dict(inp, pargs=[a[:-1] for a in inp['pargs']])
     if inp.get('args'):
         yield dict(inp, args=inp['args'][:-1])
+    # back to the plain forms, one at a time
+    plain = {'xdt': 'f32', 'startf': 'int', 'argc': 'tuple', 'argdt': 'f32', 'argsh': 'flat', 'pargsh': 'flat',
+             'route': 'afk', 'seedf': 'int', 'annf': 'tensor64', 'gridf': 'list', 'verbose': False, 'bsdef': False}
+    for k, d in plain.items():
+        if k in inp and inp[k] != d:
+            yield dict(inp, **{k: d})
